@@ -15,6 +15,16 @@ type ('a, 'b) sum =
 | Inl of 'a
 | Inr of 'b
 
+(** val fst : ('a1 * 'a2) -> 'a1 **)
+
+let fst = function
+| (x, _) -> x
+
+(** val snd : ('a1 * 'a2) -> 'a2 **)
+
+let snd = function
+| (_, y) -> y
+
 (** val length : 'a1 list -> nat **)
 
 let rec length = function
@@ -95,6 +105,14 @@ type n =
 
 module Pos =
  struct
+  type mask =
+  | IsNul
+  | IsPos of positive
+  | IsNeg
+ end
+
+module Coq_Pos =
+ struct
   (** val succ : positive -> positive **)
 
   let rec succ = function
@@ -141,6 +159,80 @@ module Pos =
        | XO q -> XO (succ q)
        | XH -> XI XH)
 
+  (** val pred_double : positive -> positive **)
+
+  let rec pred_double = function
+  | XI p -> XI (XO p)
+  | XO p -> XI (pred_double p)
+  | XH -> XH
+
+  type mask = Pos.mask =
+  | IsNul
+  | IsPos of positive
+  | IsNeg
+
+  (** val succ_double_mask : mask -> mask **)
+
+  let succ_double_mask = function
+  | IsNul -> IsPos XH
+  | IsPos p -> IsPos (XI p)
+  | IsNeg -> IsNeg
+
+  (** val double_mask : mask -> mask **)
+
+  let double_mask = function
+  | IsPos p -> IsPos (XO p)
+  | x0 -> x0
+
+  (** val double_pred_mask : positive -> mask **)
+
+  let double_pred_mask = function
+  | XI p -> IsPos (XO (XO p))
+  | XO p -> IsPos (XO (pred_double p))
+  | XH -> IsNul
+
+  (** val sub_mask : positive -> positive -> mask **)
+
+  let rec sub_mask x y =
+    match x with
+    | XI p ->
+      (match y with
+       | XI q -> double_mask (sub_mask p q)
+       | XO q -> succ_double_mask (sub_mask p q)
+       | XH -> IsPos (XO p))
+    | XO p ->
+      (match y with
+       | XI q -> succ_double_mask (sub_mask_carry p q)
+       | XO q -> double_mask (sub_mask p q)
+       | XH -> IsPos (pred_double p))
+    | XH -> (match y with
+             | XH -> IsNul
+             | _ -> IsNeg)
+
+  (** val sub_mask_carry : positive -> positive -> mask **)
+
+  and sub_mask_carry x y =
+    match x with
+    | XI p ->
+      (match y with
+       | XI q -> succ_double_mask (sub_mask_carry p q)
+       | XO q -> double_mask (sub_mask p q)
+       | XH -> IsPos (pred_double p))
+    | XO p ->
+      (match y with
+       | XI q -> double_mask (sub_mask_carry p q)
+       | XO q -> succ_double_mask (sub_mask_carry p q)
+       | XH -> double_pred_mask p)
+    | XH -> IsNeg
+
+  (** val mul : positive -> positive -> positive **)
+
+  let rec mul x y =
+    match x with
+    | XI p -> add y (XO (mul p y))
+    | XO p -> XO (mul p y)
+    | XH -> y
+
   (** val eqb : positive -> positive -> bool **)
 
   let rec eqb p q =
@@ -165,7 +257,29 @@ module N =
     | N0 -> m
     | Npos p -> (match m with
                  | N0 -> n0
-                 | Npos q -> Npos (Pos.add p q))
+                 | Npos q -> Npos (Coq_Pos.add p q))
+
+  (** val sub : n -> n -> n **)
+
+  let sub n0 m =
+    match n0 with
+    | N0 -> N0
+    | Npos n' ->
+      (match m with
+       | N0 -> n0
+       | Npos m' ->
+         (match Coq_Pos.sub_mask n' m' with
+          | Coq_Pos.IsPos p -> Npos p
+          | _ -> N0))
+
+  (** val mul : n -> n -> n **)
+
+  let mul n0 m =
+    match n0 with
+    | N0 -> N0
+    | Npos p -> (match m with
+                 | N0 -> N0
+                 | Npos q -> Npos (Coq_Pos.mul p q))
 
   (** val eqb : n -> n -> bool **)
 
@@ -176,7 +290,7 @@ module N =
              | Npos _ -> false)
     | Npos p -> (match m with
                  | N0 -> false
-                 | Npos q -> Pos.eqb p q)
+                 | Npos q -> Coq_Pos.eqb p q)
  end
 
 type ord =
@@ -196,6 +310,8 @@ type mev =
 | EvStore of var * ord * n
 | EvSwap of var * ord * n * n
 | EvCas of var * ord * ord * n * n * n * bool
+| EvCasW of var * ord * ord * n * n * n * bool
+| EvFsub of var * ord * n * n
 | EvFor of var * ord * n * n
 | EvFand of var * ord * n * n
 | EvPark
@@ -548,14 +664,14 @@ let do_taload s t a =
 let after_llock s t = function
 | LQ q -> set_pc s t (QRearm q)
 | LX q ->
-  let wl = mem t s.queue in
+  let wl0 = mem t s.queue in
   let s1 = set_queue s (rem t s.queue) in
   (match q with
    | QSync _ -> set_pc s1 t (XFix q)
-   | QFut _ -> set_pc s1 t (if wl then XFix q else XUnl q))
+   | QFut _ -> set_pc s1 t (if wl0 then XFix q else XUnl q))
 | LDrop ->
-  let wl = mem t s.queue in
-  set_pc (set_queue s (rem t s.queue)) t (if wl then DFix else DUnl)
+  let wl0 = mem t s.queue in
+  set_pc (set_queue s (rem t s.queue)) t (if wl0 then DFix else DUnl)
 | LWake -> set_pc s t WMark
 
 (** val do_llswap : mstate -> nat -> lctx -> (mstate * mev) option **)
@@ -842,6 +958,21 @@ let mev_eqb a b =
              ((&&) ((&&) ((&&) (var_eqb v v') (ord_eqb o o')) (ord_eqb f f'))
                (N.eqb x x')) (N.eqb y y')) (N.eqb r r')) (eqb k k')
      | _ -> false)
+  | EvCasW (v, o, f, x, y, r, k) ->
+    (match b with
+     | EvCasW (v', o', f', x', y', r', k') ->
+       (&&)
+         ((&&)
+           ((&&)
+             ((&&) ((&&) ((&&) (var_eqb v v') (ord_eqb o o')) (ord_eqb f f'))
+               (N.eqb x x')) (N.eqb y y')) (N.eqb r r')) (eqb k k')
+     | _ -> false)
+  | EvFsub (v, o, x, r) ->
+    (match b with
+     | EvFsub (v', o', x', r') ->
+       (&&) ((&&) ((&&) (var_eqb v v') (ord_eqb o o')) (N.eqb x x'))
+         (N.eqb r r')
+     | _ -> false)
   | EvFor (v, o, x, r) ->
     (match b with
      | EvFor (v', o', x', r') ->
@@ -965,3 +1096,869 @@ let skeleton =
     o_rearm)), None) :: [])) :: ((FnMarkWoken, ((((SvNode, SStore), (Some
     o_mark)), None) :: [])) :: ((FnWake, ((((SvNone, SUnpark), None),
     None) :: [])) :: []))))))))))))))))
+
+type rw =
+| RD
+| WR
+
+type rop =
+| ROLock of rw
+| ROTry of rw
+| ROAsync of rw
+| ROPoll of rw
+| RODropFut
+| ROWait
+
+type rres =
+| RRL of rw
+| RRT of rw * bool
+| RRA of rw
+| RRP of bool
+
+type rch =
+| RGo
+| RAgain
+| RSpur
+
+type ractx =
+| RALock of rw
+| RASpin of rw * bool
+| RATry of rw
+| RAFirst of rw * bool
+| RAPoll of rw * bool
+
+type rqctx =
+| RQSync of rw * bool
+| RQFut of rw * bool
+
+type rfixk =
+| RFQ of rqctx
+| RFX of rqctx
+| RFD
+| RFW of (wk * nat) list
+
+type rlctx =
+| RLQ of rqctx
+| RLX of rqctx
+| RLDrop
+| RLWake
+
+type rpc =
+| RIdle
+| RTALoad of ractx
+| RTACasR of ractx * bool * n
+| RTACasW of ractx * bool * bool
+| RYield of rw * bool
+| RSpinNext of rw * bool
+| RPollNext of rw * bool
+| RLLSwap of rlctx
+| RLLLoad of rlctx
+| RLLSpin of rlctx
+| RQRearm of rqctx
+| RQFor of rqctx
+| RQLoad of rqctx
+| RQCasR of rqctx * bool * n
+| RQCasW of rqctx * bool * bool
+| RFix1 of rfixk
+| RFix2 of rfixk
+| RQUnl of rqctx * bool
+| RPLoad of rw
+| RPark of rw
+| RBPark
+| RXUnl of rqctx
+| RCS of rw
+| RURel of rw
+| RWSweep of (wk * nat) list
+| RWUnl of (wk * nat) list
+| RWWake of nat * (wk * nat) list
+| RDUnl
+| RDLoad
+| RWaitW
+
+type rwstate = { wl : bool; wp : bool; hq : bool; rd : n;
+                 rllock : nat option; rqueue : (nat * bool) list;
+                 rnarm : (nat -> wk option); rnwk : (nat -> bool);
+                 rtoken : (nat -> bool); rbwoken : (nat -> bool);
+                 rprog : (nat -> rop list); rpcs : (nat -> rpc);
+                 rfut : (nat -> (rw * bool) option); wholders : nat list;
+                 rholders : nat list; rresults : (nat * rres) list }
+
+(** val rresults : rwstate -> (nat * rres) list **)
+
+let rresults r =
+  r.rresults
+
+(** val rs_word : rwstate -> (((bool * bool) * bool) * n) -> rwstate **)
+
+let rs_word s = function
+| (p, d) ->
+  let (p0, c) = p in
+  let (a, b) = p0 in
+  { wl = a; wp = b; hq = c; rd = d; rllock = s.rllock; rqueue = s.rqueue;
+  rnarm = s.rnarm; rnwk = s.rnwk; rtoken = s.rtoken; rbwoken = s.rbwoken;
+  rprog = s.rprog; rpcs = s.rpcs; rfut = s.rfut; wholders = s.wholders;
+  rholders = s.rholders; rresults = s.rresults }
+
+(** val rs_wl : rwstate -> bool -> rwstate **)
+
+let rs_wl s v =
+  rs_word s (((v, s.wp), s.hq), s.rd)
+
+(** val rs_wp : rwstate -> bool -> rwstate **)
+
+let rs_wp s v =
+  rs_word s (((s.wl, v), s.hq), s.rd)
+
+(** val rs_hq : rwstate -> bool -> rwstate **)
+
+let rs_hq s v =
+  rs_word s (((s.wl, s.wp), v), s.rd)
+
+(** val rs_rd : rwstate -> n -> rwstate **)
+
+let rs_rd s v =
+  rs_word s (((s.wl, s.wp), s.hq), v)
+
+(** val rs_llock : rwstate -> nat option -> rwstate **)
+
+let rs_llock s v =
+  { wl = s.wl; wp = s.wp; hq = s.hq; rd = s.rd; rllock = v; rqueue =
+    s.rqueue; rnarm = s.rnarm; rnwk = s.rnwk; rtoken = s.rtoken; rbwoken =
+    s.rbwoken; rprog = s.rprog; rpcs = s.rpcs; rfut = s.rfut; wholders =
+    s.wholders; rholders = s.rholders; rresults = s.rresults }
+
+(** val rs_queue : rwstate -> (nat * bool) list -> rwstate **)
+
+let rs_queue s v =
+  { wl = s.wl; wp = s.wp; hq = s.hq; rd = s.rd; rllock = s.rllock; rqueue =
+    v; rnarm = s.rnarm; rnwk = s.rnwk; rtoken = s.rtoken; rbwoken =
+    s.rbwoken; rprog = s.rprog; rpcs = s.rpcs; rfut = s.rfut; wholders =
+    s.wholders; rholders = s.rholders; rresults = s.rresults }
+
+(** val rs_narm : rwstate -> nat -> wk option -> rwstate **)
+
+let rs_narm s t v =
+  { wl = s.wl; wp = s.wp; hq = s.hq; rd = s.rd; rllock = s.rllock; rqueue =
+    s.rqueue; rnarm = (upd s.rnarm t v); rnwk = s.rnwk; rtoken = s.rtoken;
+    rbwoken = s.rbwoken; rprog = s.rprog; rpcs = s.rpcs; rfut = s.rfut;
+    wholders = s.wholders; rholders = s.rholders; rresults = s.rresults }
+
+(** val rs_nwk : rwstate -> nat -> bool -> rwstate **)
+
+let rs_nwk s t v =
+  { wl = s.wl; wp = s.wp; hq = s.hq; rd = s.rd; rllock = s.rllock; rqueue =
+    s.rqueue; rnarm = s.rnarm; rnwk = (upd s.rnwk t v); rtoken = s.rtoken;
+    rbwoken = s.rbwoken; rprog = s.rprog; rpcs = s.rpcs; rfut = s.rfut;
+    wholders = s.wholders; rholders = s.rholders; rresults = s.rresults }
+
+(** val rs_token : rwstate -> nat -> bool -> rwstate **)
+
+let rs_token s t v =
+  { wl = s.wl; wp = s.wp; hq = s.hq; rd = s.rd; rllock = s.rllock; rqueue =
+    s.rqueue; rnarm = s.rnarm; rnwk = s.rnwk; rtoken = (upd s.rtoken t v);
+    rbwoken = s.rbwoken; rprog = s.rprog; rpcs = s.rpcs; rfut = s.rfut;
+    wholders = s.wholders; rholders = s.rholders; rresults = s.rresults }
+
+(** val rs_bwoken : rwstate -> nat -> bool -> rwstate **)
+
+let rs_bwoken s t v =
+  { wl = s.wl; wp = s.wp; hq = s.hq; rd = s.rd; rllock = s.rllock; rqueue =
+    s.rqueue; rnarm = s.rnarm; rnwk = s.rnwk; rtoken = s.rtoken; rbwoken =
+    (upd s.rbwoken t v); rprog = s.rprog; rpcs = s.rpcs; rfut = s.rfut;
+    wholders = s.wholders; rholders = s.rholders; rresults = s.rresults }
+
+(** val rs_prog : rwstate -> nat -> rop list -> rwstate **)
+
+let rs_prog s t v =
+  { wl = s.wl; wp = s.wp; hq = s.hq; rd = s.rd; rllock = s.rllock; rqueue =
+    s.rqueue; rnarm = s.rnarm; rnwk = s.rnwk; rtoken = s.rtoken; rbwoken =
+    s.rbwoken; rprog = (upd s.rprog t v); rpcs = s.rpcs; rfut = s.rfut;
+    wholders = s.wholders; rholders = s.rholders; rresults = s.rresults }
+
+(** val rs_pc : rwstate -> nat -> rpc -> rwstate **)
+
+let rs_pc s t v =
+  { wl = s.wl; wp = s.wp; hq = s.hq; rd = s.rd; rllock = s.rllock; rqueue =
+    s.rqueue; rnarm = s.rnarm; rnwk = s.rnwk; rtoken = s.rtoken; rbwoken =
+    s.rbwoken; rprog = s.rprog; rpcs = (upd s.rpcs t v); rfut = s.rfut;
+    wholders = s.wholders; rholders = s.rholders; rresults = s.rresults }
+
+(** val rs_fut : rwstate -> nat -> (rw * bool) option -> rwstate **)
+
+let rs_fut s t v =
+  { wl = s.wl; wp = s.wp; hq = s.hq; rd = s.rd; rllock = s.rllock; rqueue =
+    s.rqueue; rnarm = s.rnarm; rnwk = s.rnwk; rtoken = s.rtoken; rbwoken =
+    s.rbwoken; rprog = s.rprog; rpcs = s.rpcs; rfut = (upd s.rfut t v);
+    wholders = s.wholders; rholders = s.rholders; rresults = s.rresults }
+
+(** val rs_wholders : rwstate -> nat list -> rwstate **)
+
+let rs_wholders s v =
+  { wl = s.wl; wp = s.wp; hq = s.hq; rd = s.rd; rllock = s.rllock; rqueue =
+    s.rqueue; rnarm = s.rnarm; rnwk = s.rnwk; rtoken = s.rtoken; rbwoken =
+    s.rbwoken; rprog = s.rprog; rpcs = s.rpcs; rfut = s.rfut; wholders = v;
+    rholders = s.rholders; rresults = s.rresults }
+
+(** val rs_rholders : rwstate -> nat list -> rwstate **)
+
+let rs_rholders s v =
+  { wl = s.wl; wp = s.wp; hq = s.hq; rd = s.rd; rllock = s.rllock; rqueue =
+    s.rqueue; rnarm = s.rnarm; rnwk = s.rnwk; rtoken = s.rtoken; rbwoken =
+    s.rbwoken; rprog = s.rprog; rpcs = s.rpcs; rfut = s.rfut; wholders =
+    s.wholders; rholders = v; rresults = s.rresults }
+
+(** val rlog : rwstate -> nat -> rres -> rwstate **)
+
+let rlog s t r =
+  { wl = s.wl; wp = s.wp; hq = s.hq; rd = s.rd; rllock = s.rllock; rqueue =
+    s.rqueue; rnarm = s.rnarm; rnwk = s.rnwk; rtoken = s.rtoken; rbwoken =
+    s.rbwoken; rprog = s.rprog; rpcs = s.rpcs; rfut = s.rfut; wholders =
+    s.wholders; rholders = s.rholders; rresults =
+    (app s.rresults ((t, r) :: [])) }
+
+(** val qmem : nat -> (nat * bool) list -> bool **)
+
+let qmem t l =
+  existsb (fun x -> Nat.eqb (fst x) t) l
+
+(** val qrem : nat -> (nat * bool) list -> (nat * bool) list **)
+
+let qrem t l =
+  filter (fun x -> negb (Nat.eqb (fst x) t)) l
+
+(** val nwriters : (nat * bool) list -> nat **)
+
+let nwriters l =
+  length (filter snd l)
+
+(** val first_writer : (nat * bool) list -> nat option **)
+
+let rec first_writer = function
+| [] -> None
+| p :: r -> let (h, b) = p in if b then Some h else first_writer r
+
+(** val rem1 : nat -> nat list -> nat list **)
+
+let rec rem1 t = function
+| [] -> []
+| x :: r -> if Nat.eqb x t then r else x :: (rem1 t r)
+
+(** val renc : bool -> bool -> bool -> n -> n **)
+
+let renc a b c d =
+  N.add
+    (N.add
+      (N.add (if a then Npos XH else N0) (if b then Npos (XO XH) else N0))
+      (if c then Npos (XO (XO XH)) else N0))
+    (N.mul (Npos (XO (XO (XO XH)))) d)
+
+(** val rword : rwstate -> n **)
+
+let rword s =
+  renc s.wl s.wp s.hq s.rd
+
+(** val ro_ta_load : ord **)
+
+let ro_ta_load =
+  Rlx
+
+(** val ro_ta_cas : ord **)
+
+let ro_ta_cas =
+  Acq
+
+(** val ro_ta_casf : ord **)
+
+let ro_ta_casf =
+  Rlx
+
+(** val ro_q_for : ord **)
+
+let ro_q_for =
+  Rlx
+
+(** val ro_q_load : ord **)
+
+let ro_q_load =
+  Rlx
+
+(** val ro_q_cas : ord **)
+
+let ro_q_cas =
+  Acq
+
+(** val ro_q_casf : ord **)
+
+let ro_q_casf =
+  Rlx
+
+(** val ro_fix : ord **)
+
+let ro_fix =
+  Rlx
+
+(** val ro_unlock : ord **)
+
+let ro_unlock =
+  Rel
+
+(** val rkind_a : ractx -> rw **)
+
+let rkind_a = function
+| RALock k -> k
+| RASpin (k, _) -> k
+| RATry k -> k
+| RAFirst (k, _) -> k
+| RAPoll (k, _) -> k
+
+(** val rkind_q : rqctx -> rw **)
+
+let rkind_q = function
+| RQSync (k, _) -> k
+| RQFut (k, _) -> k
+
+(** val is_wr : rw -> bool **)
+
+let is_wr = function
+| RD -> false
+| WR -> true
+
+(** val rw_eqb : rw -> rw -> bool **)
+
+let rw_eqb a b =
+  match a with
+  | RD -> (match b with
+           | RD -> true
+           | WR -> false)
+  | WR -> (match b with
+           | RD -> false
+           | WR -> true)
+
+(** val rkind_of : rqctx -> wk **)
+
+let rkind_of = function
+| RQSync (_, _) -> WThread
+| RQFut (_, blk) -> if blk then WBlock else WCount
+
+(** val rres_a : ractx -> rres **)
+
+let rres_a = function
+| RALock k -> RRL k
+| RASpin (k, _) -> RRL k
+| RATry k -> RRT (k, true)
+| RAFirst (k, blk) -> if blk then RRA k else RRP true
+| RAPoll (k, blk) -> if blk then RRA k else RRP true
+
+(** val rres_q : rqctx -> rres **)
+
+let rres_q = function
+| RQSync (k, _) -> RRL k
+| RQFut (k, blk) -> if blk then RRA k else RRP true
+
+(** val rret : rwstate -> nat -> rpc -> mev -> (rwstate * mev) option **)
+
+let rret s t p e =
+  Some ((rs_pc s t p), e)
+
+(** val ta_fail : rwstate -> nat -> ractx -> mev -> (rwstate * mev) option **)
+
+let ta_fail s t a e =
+  match a with
+  | RALock k -> rret s t (RTALoad (RASpin (k, false))) e
+  | RASpin (k, l) -> rret s t (RYield (k, l)) e
+  | RATry k -> rret (rlog s t (RRT (k, false))) t RIdle e
+  | RAFirst (k, b) -> rret s t (RTALoad (RAPoll (k, b))) e
+  | RAPoll (k, b) -> rret s t (RPollNext (k, b)) e
+
+(** val rdo_taload : rwstate -> nat -> ractx -> (rwstate * mev) option **)
+
+let rdo_taload s t a =
+  let e = EvLoad (VState, ro_ta_load, (rword s)) in
+  (match rkind_a a with
+   | RD ->
+     if (||) s.wl s.wp
+     then ta_fail s t a e
+     else rret s t (RTACasR (a, s.hq, s.rd)) e
+   | WR ->
+     if (||) s.wl (negb (N.eqb s.rd N0))
+     then ta_fail s t a e
+     else rret s t (RTACasW (a, s.wp, s.hq)) e)
+
+(** val rafter_llock : rwstate -> nat -> rlctx -> rwstate **)
+
+let rafter_llock s t = function
+| RLQ q -> rs_pc s t (RQRearm q)
+| RLX q ->
+  let was = qmem t s.rqueue in
+  let s1 = rs_queue s (qrem t s.rqueue) in
+  (match q with
+   | RQSync (_, _) -> rs_pc s1 t (RFix1 (RFX q))
+   | RQFut (_, _) -> rs_pc s1 t (if was then RFix1 (RFX q) else RXUnl q))
+| RLDrop ->
+  let was = qmem t s.rqueue in
+  rs_pc (rs_queue s (qrem t s.rqueue)) t (if was then RFix1 RFD else RDUnl)
+| RLWake -> rs_pc s t (RWSweep [])
+
+(** val rdo_llswap : rwstate -> nat -> rlctx -> (rwstate * mev) option **)
+
+let rdo_llswap s t l =
+  let s0 =
+    match l with
+    | RLQ q ->
+      (match q with
+       | RQSync (_, _) -> s
+       | RQFut (k, b) -> rs_fut s t (Some (k, b)))
+    | _ -> s
+  in
+  (match s0.rllock with
+   | Some _ ->
+     rret s0 t (RLLLoad l) (EvSwap (VLocked, o_ll_swap, (Npos XH), (Npos XH)))
+   | None ->
+     Some ((rafter_llock (rs_llock s0 (Some t)) t l), (EvSwap (VLocked,
+       o_ll_swap, (Npos XH), N0))))
+
+(** val rdo_wait : rwstate -> nat -> rch -> (rwstate * mev) option **)
+
+let rdo_wait s t c =
+  let s1 = rs_token s t true in
+  (match c with
+   | RAgain -> rret s1 t RWaitW (EvUnpark t)
+   | _ -> rret s1 t RIdle (EvUnpark t))
+
+(** val rdispatch :
+    rwstate -> nat -> rch -> rop list -> (rwstate * mev) option **)
+
+let rec rdispatch s t c p = match p with
+| [] ->
+  (match s.rfut t with
+   | Some _ -> rdo_llswap (rs_prog s t []) t RLDrop
+   | None -> None)
+| r0 :: r ->
+  (match r0 with
+   | ROLock k ->
+     (match s.rfut t with
+      | Some _ -> rdo_llswap (rs_prog s t p) t RLDrop
+      | None -> rdo_taload (rs_prog s t r) t (RALock k))
+   | ROTry k -> rdo_taload (rs_prog s t r) t (RATry k)
+   | ROAsync k ->
+     (match s.rfut t with
+      | Some _ -> rdo_llswap (rs_prog s t p) t RLDrop
+      | None -> rdo_taload (rs_prog s t r) t (RAFirst (k, true)))
+   | ROPoll k ->
+     (match s.rfut t with
+      | Some p0 ->
+        let (k', _) = p0 in
+        if rw_eqb k k'
+        then rdo_taload (rs_prog s t r) t (RAPoll (k, false))
+        else rdo_llswap (rs_prog s t p) t RLDrop
+      | None -> rdo_taload (rs_prog s t r) t (RAFirst (k, false)))
+   | RODropFut ->
+     (match s.rfut t with
+      | Some _ -> rdo_llswap (rs_prog s t r) t RLDrop
+      | None -> rdispatch s t c r)
+   | ROWait ->
+     (match s.rfut t with
+      | Some _ -> rdo_wait (rs_prog s t r) t c
+      | None -> rdispatch s t c r))
+
+(** val rblock_next : rwstate -> nat -> rwstate **)
+
+let rblock_next s t =
+  let k = match s.rfut t with
+          | Some p -> let (k, _) = p in k
+          | None -> RD in
+  if s.rbwoken t
+  then rs_pc (rs_bwoken s t false) t (RTALoad (RAPoll (k, true)))
+  else rs_pc s t RBPark
+
+(** val rdo_fix1 : rwstate -> nat -> rfixk -> (rwstate * mev) option **)
+
+let rdo_fix1 s t f =
+  match nwriters s.rqueue with
+  | O ->
+    rret (rs_wp s false) t (RFix2 f) (EvFand (VState, ro_fix, (Npos (XO XH)),
+      (rword s)))
+  | S _ ->
+    rret (rs_wp s true) t (RFix2 f) (EvFor (VState, ro_fix, (Npos (XO XH)),
+      (rword s)))
+
+(** val rflush : rwstate -> nat -> (wk * nat) list -> rwstate **)
+
+let rec rflush s t = function
+| [] -> rs_pc s t RIdle
+| p :: r ->
+  let (w, h) = p in
+  (match w with
+   | WThread -> rs_pc s t (RWWake (h, r))
+   | WBlock -> rs_pc (rs_bwoken s h true) t (RWWake (h, r))
+   | WCount -> rflush s t r)
+
+(** val wake_of : rwstate -> nat -> (wk * nat) list **)
+
+let wake_of s h =
+  match s.rnarm h with
+  | Some k -> (k, h) :: []
+  | None -> []
+
+(** val after_acq_a : rwstate -> nat -> ractx -> rw -> rpc **)
+
+let after_acq_a s t a k =
+  match a with
+  | RASpin (k0, linked) ->
+    (match k0 with
+     | RD -> RCS k
+     | WR -> if linked then RLLSwap (RLX (RQSync (WR, true))) else RCS k)
+  | RAPoll (k', b) ->
+    (match s.rfut t with
+     | Some _ -> RLLSwap (RLX (RQFut (k', b)))
+     | None -> RCS k)
+  | _ -> RCS k
+
+(** val rwstep : rwstate -> nat -> rch -> (rwstate * mev) option **)
+
+let rwstep s t c =
+  match s.rpcs t with
+  | RIdle -> rdispatch s t c (s.rprog t)
+  | RTALoad a -> rdo_taload s t a
+  | RTACasR (a, shq, srd) ->
+    let weak = match a with
+               | RATry _ -> false
+               | _ -> true in
+    let spur = (&&) weak (match c with
+                          | RSpur -> true
+                          | _ -> false) in
+    let ok =
+      (&&)
+        ((&&) ((&&) ((&&) (negb s.wl) (negb s.wp)) (eqb s.hq shq))
+          (N.eqb s.rd srd)) (negb spur)
+    in
+    let x = renc false false shq srd in
+    let e =
+      if weak
+      then EvCasW (VState, ro_ta_cas, ro_ta_casf, x,
+             (N.add x (Npos (XO (XO (XO XH))))), (rword s), ok)
+      else EvCas (VState, ro_ta_cas, ro_ta_casf, x,
+             (N.add x (Npos (XO (XO (XO XH))))), (rword s), ok)
+    in
+    if ok
+    then let s1 =
+           rlog
+             (rs_rholders (rs_rd s (N.add s.rd (Npos XH))) (t :: s.rholders))
+             t (rres_a a)
+         in
+         rret s1 t (after_acq_a s t a RD) e
+    else ta_fail s t a e
+  | RTACasW (a, swp, shq) ->
+    let ok =
+      (&&) ((&&) ((&&) (negb s.wl) (N.eqb s.rd N0)) (eqb s.wp swp))
+        (eqb s.hq shq)
+    in
+    let x = renc false swp shq N0 in
+    let e = EvCas (VState, ro_ta_cas, ro_ta_casf, x, (N.add x (Npos XH)),
+      (rword s), ok)
+    in
+    if ok
+    then let s1 =
+           rlog (rs_wholders (rs_wl s true) (t :: s.wholders)) t (rres_a a)
+         in
+         rret s1 t (after_acq_a s t a WR) e
+    else ta_fail s t a e
+  | RYield (k, l) -> rret s t (RSpinNext (k, l)) EvYield
+  | RSpinNext (k, l) ->
+    (match c with
+     | RAgain -> rdo_taload s t (RASpin (k, l))
+     | _ -> rdo_llswap s t (RLQ (RQSync (k, l))))
+  | RPollNext (k, b) ->
+    (match c with
+     | RAgain -> rdo_taload s t (RAPoll (k, b))
+     | _ -> rdo_llswap s t (RLQ (RQFut (k, b))))
+  | RLLSwap l -> rdo_llswap s t l
+  | RLLLoad l ->
+    (match s.rllock with
+     | Some _ -> rret s t (RLLSpin l) (EvLoad (VLocked, o_ll_load, (Npos XH)))
+     | None -> rret s t (RLLSwap l) (EvLoad (VLocked, o_ll_load, N0)))
+  | RLLSpin l -> rret s t (RLLLoad l) EvSpin
+  | RQRearm q ->
+    let s1 = rs_nwk (rs_narm s t (Some (rkind_of q))) t false in
+    let is_linked =
+      match q with
+      | RQSync (k, l) -> (match k with
+                          | RD -> false
+                          | WR -> l)
+      | RQFut (_, _) -> qmem t s.rqueue
+    in
+    let s2 =
+      if is_linked
+      then s1
+      else rs_queue s1 (app s1.rqueue ((t, (is_wr (rkind_q q))) :: []))
+    in
+    rret s2 t (RQFor q) (EvStore ((VNode t), o_rearm, N0))
+  | RQFor q ->
+    (match rkind_q q with
+     | RD ->
+       rret (rs_hq s true) t (RQLoad q) (EvFor (VState, ro_q_for, (Npos (XO
+         (XO XH))), (rword s)))
+     | WR ->
+       rret (rs_wp (rs_hq s true) true) t (RQLoad q) (EvFor (VState,
+         ro_q_for, (Npos (XO (XI XH))), (rword s))))
+  | RQLoad q ->
+    let e = EvLoad (VState, ro_q_load, (rword s)) in
+    (match rkind_q q with
+     | RD ->
+       if (||) s.wl s.wp
+       then rret s t (RQUnl (q, false)) e
+       else rret s t (RQCasR (q, s.hq, s.rd)) e
+     | WR ->
+       if (||) s.wl (negb (N.eqb s.rd N0))
+       then rret s t (RQUnl (q, false)) e
+       else rret s t (RQCasW (q, s.wp, s.hq)) e)
+  | RQCasR (q, shq, srd) ->
+    let ok =
+      (&&) ((&&) ((&&) (negb s.wl) (negb s.wp)) (eqb s.hq shq))
+        (N.eqb s.rd srd)
+    in
+    let x = renc false false shq srd in
+    let e = EvCas (VState, ro_q_cas, ro_q_casf, x,
+      (N.add x (Npos (XO (XO (XO XH))))), (rword s), ok)
+    in
+    if ok
+    then let s1 =
+           rlog
+             (rs_rholders (rs_rd s (N.add s.rd (Npos XH))) (t :: s.rholders))
+             t (rres_q q)
+         in
+         rret (rs_queue s1 (qrem t s1.rqueue)) t (RFix1 (RFQ q)) e
+    else rret s t (RQLoad q) e
+  | RQCasW (q, swp, shq) ->
+    let ok =
+      (&&) ((&&) ((&&) (negb s.wl) (N.eqb s.rd N0)) (eqb s.wp swp))
+        (eqb s.hq shq)
+    in
+    let x = renc false swp shq N0 in
+    let e = EvCas (VState, ro_q_cas, ro_q_casf, x, (N.add x (Npos XH)),
+      (rword s), ok)
+    in
+    if ok
+    then let s1 =
+           rlog (rs_wholders (rs_wl s true) (t :: s.wholders)) t (rres_q q)
+         in
+         rret (rs_queue s1 (qrem t s1.rqueue)) t (RFix1 (RFQ q)) e
+    else rret s t (RQLoad q) e
+  | RFix1 f -> rdo_fix1 s t f
+  | RFix2 f ->
+    let next =
+      match f with
+      | RFQ q -> RQUnl (q, true)
+      | RFX q -> RXUnl q
+      | RFD -> RDUnl
+      | RFW ws -> RWUnl ws
+    in
+    (match s.rqueue with
+     | [] ->
+       rret (rs_hq s false) t next (EvFand (VState, ro_fix, (Npos (XO (XO
+         XH))), (rword s)))
+     | _ :: _ ->
+       rret (rs_hq s true) t next (EvFor (VState, ro_fix, (Npos (XO (XO
+         XH))), (rword s))))
+  | RQUnl (q, acq) ->
+    let e = EvStore (VLocked, o_ll_unlock, N0) in
+    let s1 = rs_llock s None in
+    if acq
+    then (match q with
+          | RQSync (k, _) -> rret s1 t (RCS k) e
+          | RQFut (k, _) -> rret (rs_fut s1 t None) t (RCS k) e)
+    else (match q with
+          | RQSync (k, _) -> rret s1 t (RPLoad k) e
+          | RQFut (_, blk) ->
+            if blk
+            then Some ((rblock_next s1 t), e)
+            else rret (rlog s1 t (RRP false)) t RIdle e)
+  | RPLoad k ->
+    let e = EvLoad ((VNode t), o_node_load, (b2n (s.rnwk t))) in
+    if s.rnwk t
+    then rret s t (RTALoad (RASpin (k, (is_wr k)))) e
+    else rret s t (RPark k) e
+  | RPark k ->
+    if s.rtoken t then rret (rs_token s t false) t (RPLoad k) EvPark else None
+  | RBPark ->
+    if s.rtoken t
+    then Some ((rblock_next (rs_token s t false) t), EvPark)
+    else None
+  | RXUnl q ->
+    let e = EvStore (VLocked, o_ll_unlock, N0) in
+    let s1 = rs_llock s None in
+    (match q with
+     | RQSync (k, _) -> rret s1 t (RCS k) e
+     | RQFut (k, _) -> rret (rs_fut s1 t None) t (RCS k) e)
+  | RCS k ->
+    let s1 = rs_token s t true in
+    (match c with
+     | RAgain -> rret s1 t (RCS k) (EvUnpark t)
+     | _ -> rret s1 t (RURel k) (EvUnpark t))
+  | RURel k ->
+    (match k with
+     | RD ->
+       let e = EvFsub (VState, ro_unlock, (Npos (XO (XO (XO XH)))), (rword s))
+       in
+       let s1 =
+         rs_rholders (rs_rd s (N.sub s.rd (Npos XH))) (rem1 t s.rholders)
+       in
+       if (&&) (N.eqb s.rd (Npos XH)) s.hq
+       then rret s1 t (RLLSwap RLWake) e
+       else rret s1 t RIdle e
+     | WR ->
+       let e = EvFand (VState, ro_unlock, (Npos XH), (rword s)) in
+       let s1 = rs_wholders (rs_wl s false) (rem t s.wholders) in
+       if s.hq then rret s1 t (RLLSwap RLWake) e else rret s1 t RIdle e)
+  | RWSweep ws ->
+    (match first_writer s.rqueue with
+     | Some h ->
+       rret (rs_nwk (rs_narm s h None) h true) t (RWUnl
+         (app ws (wake_of s h))) (EvStore ((VNode h), o_mark, (Npos XH)))
+     | None ->
+       (match s.rqueue with
+        | [] -> rdo_fix1 s t (RFW ws)
+        | p :: r ->
+          let (h, _) = p in
+          rret (rs_queue (rs_nwk (rs_narm s h None) h true) r) t (RWSweep
+            (app ws (wake_of s h))) (EvStore ((VNode h), o_mark, (Npos XH)))))
+  | RWUnl ws ->
+    Some ((rflush (rs_llock s None) t ws), (EvStore (VLocked, o_ll_unlock,
+      N0)))
+  | RWWake (h, rest) ->
+    Some ((rflush (rs_token s h true) t rest), (EvUnpark h))
+  | RDUnl ->
+    rret (rs_llock s None) t RDLoad (EvStore (VLocked, o_ll_unlock, N0))
+  | RDLoad ->
+    let e = EvLoad ((VNode t), o_node_load, (b2n (s.rnwk t))) in
+    let s1 = rs_fut s t None in
+    if s.rnwk t then rret s1 t (RLLSwap RLWake) e else rret s1 t RIdle e
+  | RWaitW -> rdo_wait s t c
+
+(** val rwinit : (nat -> rop list) -> rwstate **)
+
+let rwinit progs =
+  { wl = false; wp = false; hq = false; rd = N0; rllock = None; rqueue = [];
+    rnarm = (fun _ -> None); rnwk = (fun _ -> false); rtoken = (fun _ ->
+    false); rbwoken = (fun _ -> false); rprog = progs; rpcs = (fun _ ->
+    RIdle); rfut = (fun _ -> None); wholders = []; rholders = []; rresults =
+    [] }
+
+(** val rwsys : (nat -> rop list) -> system **)
+
+let rwsys progs =
+  { init = (Obj.magic rwinit progs); step = (Obj.magic rwstep) }
+
+(** val rw_replay_trace :
+    (nat -> rop list) -> ((nat * rch) * mev) list -> (rwstate option, nat) sum **)
+
+let rw_replay_trace progs tr =
+  Obj.magic replay (rwsys progs) mev_eqb (rwinit progs) tr
+
+(** val rwpeek : rwstate -> nat -> rch -> mev option **)
+
+let rwpeek s t c =
+  match rwstep s t c with
+  | Some p -> let (_, e) = p in Some e
+  | None -> None
+
+type rfn =
+| RfTryAcqR
+| RfTryAcqW
+| RfRead
+| RfReadSlow
+| RfReadAsync
+| RfWrite
+| RfWriteSlow
+| RfWriteAsync
+| RfTryRead
+| RfTryWrite
+| RfUnlockR
+| RfUnlockW
+| RfFixFlags
+| RfWakeWaiters
+| RfRGuardDrop
+| RfWGuardDrop
+| RfRFutPoll
+| RfRFutFinish
+| RfRFutDrop
+| RfWFutPoll
+| RfWFutFinish
+| RfWFutDrop
+| RfListLock
+| RfRearm
+| RfMarkWoken
+| RfWake
+
+type rsop =
+| RsLoad
+| RsStore
+| RsCas
+| RsCasWeak
+| RsFor
+| RsFand
+| RsFsub
+| RsPark
+| RsYield
+| RsCall of rfn
+
+(** val rcall : rfn -> ((svar * rsop) * ord option) * ord option **)
+
+let rcall f =
+  (((SvNone, (RsCall f)), None), None)
+
+(** val rq_section : (((svar * rsop) * ord option) * ord option) list **)
+
+let rq_section =
+  (rcall RfListLock) :: ((rcall RfRearm) :: ((((SvState, RsFor), (Some
+    ro_q_for)), None) :: ((((SvState, RsLoad), (Some ro_q_load)),
+    None) :: ((((SvState, RsCas), (Some ro_q_cas)), (Some
+    ro_q_casf)) :: ((rcall RfFixFlags) :: [])))))
+
+(** val rpark_tail : (((svar * rsop) * ord option) * ord option) list **)
+
+let rpark_tail =
+  (((SvNode, RsLoad), (Some o_node_load)), None) :: ((((SvNone, RsPark),
+    None), None) :: [])
+
+(** val rskeleton :
+    (rfn * (((svar * rsop) * ord option) * ord option) list) list **)
+
+let rskeleton =
+  (RfTryAcqR, ((((SvState, RsLoad), (Some ro_ta_load)), None) :: ((((SvState,
+    RsCasWeak), (Some ro_ta_cas)), (Some
+    ro_ta_casf)) :: []))) :: ((RfTryAcqW, ((((SvState, RsLoad), (Some
+    ro_ta_load)), None) :: ((((SvState, RsCas), (Some ro_ta_cas)), (Some
+    ro_ta_casf)) :: []))) :: ((RfRead,
+    ((rcall RfTryAcqR) :: ((rcall RfReadSlow) :: []))) :: ((RfReadSlow,
+    (app ((rcall RfTryAcqR) :: ((((SvNone, RsYield), None), None) :: []))
+      (app rq_section rpark_tail))) :: ((RfReadAsync,
+    ((rcall RfTryAcqR) :: [])) :: ((RfWrite,
+    ((rcall RfTryAcqW) :: ((rcall RfWriteSlow) :: []))) :: ((RfWriteSlow,
+    (app
+      ((rcall RfTryAcqW) :: ((rcall RfListLock) :: ((rcall RfFixFlags) :: ((((SvNone,
+      RsYield), None), None) :: [])))) (app rq_section rpark_tail))) :: ((RfWriteAsync,
+    ((rcall RfTryAcqW) :: [])) :: ((RfTryRead, ((((SvState, RsLoad), (Some
+    ro_ta_load)), None) :: ((((SvState, RsCas), (Some ro_ta_cas)), (Some
+    ro_ta_casf)) :: []))) :: ((RfTryWrite,
+    ((rcall RfTryAcqW) :: [])) :: ((RfUnlockR, ((((SvState, RsFsub), (Some
+    ro_unlock)), None) :: ((rcall RfWakeWaiters) :: []))) :: ((RfUnlockW,
+    ((((SvState, RsFand), (Some ro_unlock)),
+    None) :: ((rcall RfWakeWaiters) :: []))) :: ((RfFixFlags, ((((SvState,
+    RsFand), (Some ro_fix)), None) :: ((((SvState, RsFor), (Some ro_fix)),
+    None) :: ((((SvState, RsFand), (Some ro_fix)), None) :: ((((SvState,
+    RsFor), (Some ro_fix)), None) :: []))))) :: ((RfWakeWaiters,
+    ((rcall RfListLock) :: ((rcall RfMarkWoken) :: ((rcall RfWake) :: (
+    (rcall RfMarkWoken) :: ((rcall RfFixFlags) :: ((rcall RfWake) :: []))))))) :: ((RfRGuardDrop,
+    ((rcall RfUnlockR) :: [])) :: ((RfWGuardDrop,
+    ((rcall RfUnlockW) :: [])) :: ((RfRFutPoll,
+    (app ((rcall RfTryAcqR) :: ((rcall RfRFutFinish) :: [])) rq_section)) :: ((RfRFutFinish,
+    ((rcall RfListLock) :: ((rcall RfFixFlags) :: []))) :: ((RfRFutDrop,
+    ((rcall RfListLock) :: ((rcall RfFixFlags) :: ((((SvNode, RsLoad), (Some
+    o_node_load)),
+    None) :: ((rcall RfWakeWaiters) :: []))))) :: ((RfWFutPoll,
+    (app ((rcall RfTryAcqW) :: ((rcall RfWFutFinish) :: [])) rq_section)) :: ((RfWFutFinish,
+    ((rcall RfListLock) :: ((rcall RfFixFlags) :: []))) :: ((RfWFutDrop,
+    ((rcall RfListLock) :: ((rcall RfFixFlags) :: ((((SvNode, RsLoad), (Some
+    o_node_load)),
+    None) :: ((rcall RfWakeWaiters) :: []))))) :: [])))))))))))))))))))))
